@@ -114,7 +114,7 @@ class Sched:
         except Killed:
             pass
         except BaseException as e:  # noqa: BLE001
-            self.errors[i] = (type(e).__name__, str(e)[:120])
+            self.errors[i] = (type(e).__name__, str(e)[:2000])
         self.done[i] = True
         if not self.dead[i]:
             self.locks.exit(i)  # process exit
